@@ -176,6 +176,12 @@ def _run_one(lib, cache, rs, enumerate_faults, kinds, only):
     return ro
 
 
+def work_init(init: dict) -> None:
+    import logging
+
+    logging.disable(logging.CRITICAL)    # the client logs every token fetch / missing folder; keep the worker's stderr for real trouble
+
+
 def work(case: dict) -> dict:
     lib = G.Library(case["lib"])
     cache: dict = {}
